@@ -167,6 +167,30 @@ func worker(args []string) {
 		if p.Join != nil {
 			e.TableOut = map[string]string{}
 		}
+		// hang watchdog: a single execution normally takes well under a second; no choice point for hangS seconds
+		// means the library (or the harness) loops forever. The current choice list becomes the replay.
+		go func() {
+			last, lastT := e.Progress(), time.Now()
+			for {
+				time.Sleep(2 * time.Second)
+				if p := e.Progress(); p != last {
+					last, lastT = p, time.Now()
+					continue
+				}
+				if time.Since(lastT) > hangLimit() {
+					ch, lab := e.Current()
+					st, vs := e.Snapshot()
+					res.Stats = st
+					res.Stats.Exhaustive = false
+					res.Stats.CapHit = "hang"
+					res.Violations = append(vs, mc.Violation{Key: id + " hang", Msg: fmt.Sprintf("no progress for %v inside one execution at acceleration level %d: the library does not return (last choices: %v)", hangLimit(), cfg.Level, lab), Choices: ch, Labels: lab, Count: 1})
+					res.WallS = time.Since(start).Seconds()
+					b, _ := json.Marshal(res)
+					os.WriteFile(out, b, 0o644)
+					os.Exit(0)
+				}
+			}
+		}()
 		res.Stats = e.Run()
 		res.Violations = e.Violations()
 		res.Samples = e.Samples
@@ -178,6 +202,15 @@ func worker(args []string) {
 		fmt.Fprintln(os.Stderr, err)
 		os.Exit(2)
 	}
+}
+
+func hangLimit() time.Duration {
+	if s := os.Getenv("VERIF_HANG_S"); s != "" {
+		if v, err := strconv.Atoi(s); err == nil && v > 0 {
+			return time.Duration(v) * time.Second
+		}
+	}
+	return 120 * time.Second
 }
 
 func self() string {
@@ -193,7 +226,23 @@ func probeLevels() (ok []int, notes []string) {
 	for _, l := range []int{0, 1, 2, 3, 4} {
 		cmd := exec.Command(self(), "probe")
 		cmd.Env = append(os.Environ(), fmt.Sprintf("FASTGO_VERIF_ARCHLEVEL=%d", l))
-		outb, err := cmd.CombinedOutput()
+		var ob bytes.Buffer
+		cmd.Stdout, cmd.Stderr = &ob, &ob
+		err := cmd.Start()
+		if err == nil {
+			done := make(chan error, 1)
+			go func() { done <- cmd.Wait() }()
+			select {
+			case err = <-done:
+			case <-time.After(90 * time.Second):
+				cmd.Process.Kill()
+				// a level that hangs on the probe's plain round trip is still run: the checks report the hang themselves
+				notes = append(notes, fmt.Sprintf("acceleration level %d: the probe workload did not finish within 90 s", l))
+				ok = append(ok, l)
+				continue
+			}
+		}
+		outb := ob.Bytes()
 		if err != nil {
 			notes = append(notes, fmt.Sprintf("acceleration level %d not runnable on this host (%v): %s", l, err, firstLine(string(outb))))
 			continue
@@ -638,6 +687,12 @@ func replay(args []string) int {
 	os.Setenv("VERIF_SEED", strconv.FormatUint(rf.Seed, 10))
 	cfg := &props.Cfg{Tier: rf.Tier, Thorough: rf.Tier == "thorough", Seed: rf.Seed, Level: props.ArchLevel()}
 	e := &mc.Explorer{Harness: p.Harness(cfg), MaxDev: -1}
+	go func() {
+		time.Sleep(hangLimit() / 4)
+		fmt.Printf("REPLAY-KEY: %s hang\n", rf.Property)
+		fmt.Println("replay: the execution does not return")
+		os.Exit(1)
+	}()
 	x := e.Replay(rf.Choices)
 	if !quiet {
 		fmt.Printf("replay of %s at acceleration level %d, seed %d\n", rf.Property, cfg.Level, rf.Seed)
